@@ -605,7 +605,7 @@ def run_document(src, tier, seed, only=None):
     """worker: all readers of one document.  -> dict(failures=[...], stats, coq cases)"""
     odfdo = common.use_repo()
     rng = random.Random("%s-%s" % (seed, src["id"]))
-    res = dict(id=src["id"], failures=[], calls=0, distinct=set(), timeouts=0, exceptions=0, entries=0, skipped=set(), hist={}, cases=[], reloads=0)
+    res = dict(id=src["id"], failures=[], budget_exhausted=False, entries_done=0, calls=0, distinct=set(), timeouts=0, exceptions=0, entries=0, skipped=set(), hist={}, cases=[], reloads=0)
     try:
         doc, origin = open_source(odfdo, src)
     except Exception as e:
@@ -662,12 +662,23 @@ def run_document(src, tier, seed, only=None):
                 res["failures"].append(dict(kind="order-dependent", key="order/%s.%s" % (cname, label.lstrip(".")),
                                             detail="answer in the first pass %s, after other reads %s" % (answers[idx], a1), case=case))
 
+    # CPU budget per document (big.ods: every snapshot is a C14N of a 1.5 MB tree): what is not reached is counted
+    t_start = time.process_time()
+    total = 45 if tier == "quick" else 150
+    first_pass = total * 2 / 3
     for idx, ent in enumerate(ents):
+        if only is None and time.process_time() - t_start > first_pass:
+            res["budget_exhausted"] = True
+            break
         one(idx, ent, True)
+        res["entries_done"] += 1
     orders = 1 if tier == "quick" else 2
     for _ in range(orders if only is None else 0):
-        order = list(range(len(ents))); rng.shuffle(order)
+        order = [i for i in range(len(ents)) if i in answers]; rng.shuffle(order)
         for idx in order:
+            if time.process_time() - t_start > total:
+                res["budget_exhausted"] = True
+                break
             one(idx, ents[idx], False)
     # modelled reads: paragraphs (inner_text) and tables (exporters), abstracted before / after, judged in Coq
     if only is None:
@@ -760,13 +771,66 @@ def sources(tier, seed):
     return out, skipped
 
 
-def _worker(args):
-    src, tier, seed, only = args
+def _empty_result(src, failures):
+    return dict(id=src["id"], failures=failures, budget_exhausted=False, entries_done=0, calls=0, distinct=[], timeouts=0, exceptions=0, entries=0, skipped=[], hist={}, cases=[], reloads=0)
+
+
+def worker_main(job_file, out_file):
+    """one document in one interpreter (a reader that crashes the interpreter cannot take the whole check down)"""
+    job = json.load(open(job_file))
     try:
-        return run_document(src, tier, seed, only)
+        res = run_document(job["src"], job["tier"], job["seed"], job["only"])
     except Exception:
-        return dict(id=src["id"], failures=[dict(kind="harness", key="harness/%s" % src["id"], detail=traceback.format_exc()[-600:], source=src)],
-                    calls=0, distinct=[], timeouts=0, exceptions=0, entries=0, skipped=[], hist={}, cases=[], reloads=0)
+        res = _empty_result(job["src"], [dict(kind="harness", key="harness/%s" % job["src"]["id"], detail=traceback.format_exc()[-600:], source=job["src"])])
+    Path(out_file).write_text(json.dumps(res, default=list))
+
+
+def run_jobs(jobs, tier):
+    """subprocess per document, at most 14 at a time, each under a time limit; a lost worker is retried once"""
+    import subprocess
+    tmp = common.WORK / ("c15-%d" % os.getpid())
+    if tmp.exists():
+        import shutil; shutil.rmtree(tmp)
+    tmp.mkdir(parents=True)
+    limit = 600 if tier == "quick" else 1500
+    pending = []
+    for i, (src, t, seed, only) in enumerate(jobs):
+        jf = tmp / ("job_%d.json" % i)
+        jf.write_text(json.dumps(dict(src=src, tier=t, seed=seed, only=only)))
+        pending.append((i, 0))
+    results, lost, running = {}, [], []
+    env = common.repo_env()
+    while pending or running:
+        while pending and len(running) < 14:
+            i, attempt = pending.pop(0)
+            out = tmp / ("out_%d.json" % i)
+            if out.exists():
+                out.unlink()
+            p = subprocess.Popen([common.PY, str(Path(__file__).resolve()), "--worker", str(tmp / ("job_%d.json" % i)), str(out)],
+                                 env=env, stdout=subprocess.DEVNULL, stderr=subprocess.PIPE, text=True)
+            running.append((i, attempt, p, time.time(), out))
+        still = []
+        for i, attempt, p, t0, out in running:
+            rc = p.poll()
+            if rc is None:
+                if time.time() - t0 > limit:
+                    p.kill(); p.wait()
+                    rc = -9
+                else:
+                    still.append((i, attempt, p, t0, out)); continue
+            if rc == 0 and out.exists():
+                results[i] = json.loads(out.read_text())
+            elif attempt == 0:
+                pending.append((i, 1))
+            else:
+                err = (p.stderr.read() or "")[-400:] if p.stderr else ""
+                lost.append("document %s: worker lost twice (rc=%s) %s" % (jobs[i][0]["id"], rc, err))
+                results[i] = _empty_result(jobs[i][0], [])
+        running = still
+        if running:
+            time.sleep(0.1)
+    import shutil; shutil.rmtree(tmp, ignore_errors=True)
+    return [results[i] for i in range(len(jobs))], lost
 
 
 def run(tier, seed, replay=None):
@@ -784,9 +848,7 @@ def run(tier, seed, replay=None):
         jobs = [(case["source"], tier, seed, case if "call" in case else None)]
     else:
         jobs = [(c["source"], tier, seed, c) for c in corpus] + [(s, tier, seed, None) for s in srcs]
-    import multiprocessing as mp
-    with mp.get_context("fork").Pool(min(14, max(1, len(jobs)))) as pool:
-        results = pool.map(_worker, jobs, chunksize=1)
+    results, lost = run_jobs(jobs, tier)
     cases, owner = [], []
     for i, r in enumerate(results):
         for c in r["cases"]:
@@ -821,7 +883,7 @@ def run(tier, seed, replay=None):
         key = "modelled-read/%s/%s" % ({1: "state-changed", 3: "second-answer-differs"}[code], "paragraph.inner_text" if kind == "Para" else "table-exporters")
         report(key, dict(layer="modelled read evaluated in Coq (code %d)" % code, key=key, detail=cases[ci][:600],
                          case=dict(source=src), known_finding_key=None))
-    violations += common.proof_violation(PROP, seed, proofs, errors, bool(violations))
+    violations += common.proof_violation(PROP, seed, proofs, errors + lost, bool(violations))
     distinct = set()
     for r in results:
         distinct.update(r["distinct"])
@@ -855,6 +917,7 @@ def run(tier, seed, replay=None):
              % (sorted(BIG), sum(1 for s in srcs if s["id"].startswith("generated:text")), sum(1 for s in srcs if s["id"].startswith("generated:sheet")), 1 if tier == "quick" else 2),
         samples=samples, documents=len(jobs), big_sheets_skipped=skipped_big, calls=calls, coq_cases=len(cases),
         objects_by_kind=dict(sorted(hist.items())), timeouts=sum(r["timeouts"] for r in results), reader_exceptions=sum(r["exceptions"] for r in results),
+        documents_lost=lost, documents_cut_by_cpu_budget=[dict(document=r["id"], entries_done=r.get("entries_done"), entries=r["entries"]) for r in results if r.get("budget_exhausted")],
         reloads_after_mutation=sum(r["reloads"] for r in results), failures=nfail, fidelity_divergences=fidelity,
         public_methods_not_classified_read_only=len(skipped_names), not_classified_sample=sorted(skipped_names)[:40],
         corpus_cases=len(corpus), known_findings_reobserved=known_seen, exhaustive=False)
@@ -865,4 +928,7 @@ def run(tier, seed, replay=None):
 
 
 if __name__ == "__main__":
-    common.main(run)
+    if len(sys.argv) > 3 and sys.argv[1] == "--worker":
+        worker_main(sys.argv[2], sys.argv[3])
+    else:
+        common.main(run)
